@@ -286,7 +286,10 @@ func (x *Exec) callStatic0(fr *Frame, st *State, fn *ssa.Function, args, bind []
 		}
 		useContract := c != nil && !c.Inline && (len(c.Ensures) > 0 || len(c.Requires) > 0 || c.HasAssigns || c.Trusted) && (c.Opaque || recursive || x.useContracts)
 		if useContract {
-			return x.applyContract(fr, st, c, fn, args, resT, pos, funcDisplayName(fn))
+			x.applyBind = bind // captured variables of a closure called through its contract
+			r := x.applyContract(fr, st, c, fn, args, resT, pos, funcDisplayName(fn))
+			x.applyBind = nil
+			return r
 		}
 		if recursive {
 			failf("recursive call of %s without contract", fn.Name())
@@ -410,6 +413,24 @@ func (x *Exec) applyContract(fr *Frame, st *State, c *Contract, fn *ssa.Function
 		pkg = x.pkgOfFn(fr.fn)
 	}
 	vars := x.bindParams(c, fn, args)
+	if fn != nil && len(fn.FreeVars) > 0 && x.applyBind != nil {
+		for i, fv := range fn.FreeVars {
+			if i >= len(x.applyBind) {
+				break
+			}
+			v := x.applyBind[i]
+			if _, taken := vars[fv.Name()]; taken {
+				continue
+			}
+			if v.K == KPtr {
+				if pt, ok := fv.Type().(*types.Pointer); ok {
+					vars[fv.Name()] = x.load(st, v.P, pt.Elem())
+					continue
+				}
+			}
+			vars[fv.Name()] = v
+		}
+	}
 	pre := st.clone()
 	var hint token.Pos
 	if fn != nil {
@@ -1004,6 +1025,18 @@ func (x *Exec) callSiteObligations(fr *Frame, st *State, fn *ssa.Function, name 
 		}
 		x.oblige(root, st, "calls", "", lbl, t, pos, cc.C.Src)
 	}
+	// ghost call counter
+	if x.ncallCells != nil {
+		for _, k := range []string{name, short, fn.Name(), genBase, genInst} {
+			if c, ok := x.ncallCells[k]; ok && k != "" {
+				if cur, have := st.cells[c]; have {
+					st.cells[c] = scalar(tInt, Add(cur.Term, IntLit(1)))
+					x.cellsW[c] = true
+				}
+				break
+			}
+		}
+	}
 	// ghost flag
 	if x.calledCells != nil {
 		if c, ok := x.calledCells[name]; ok {
@@ -1143,7 +1176,7 @@ func exprUsesGhost(e *Expr) bool {
 	if e == nil {
 		return false
 	}
-	if e.Op == "call" && e.Args[0].Op == "ident" && (e.Args[0].Name == "called" || e.Args[0].Name == "ret" || e.Args[0].Name == "arg" || e.Args[0].Name == "after") {
+	if e.Op == "call" && e.Args[0].Op == "ident" && (e.Args[0].Name == "called" || e.Args[0].Name == "ret" || e.Args[0].Name == "arg" || e.Args[0].Name == "after" || e.Args[0].Name == "ncalls") {
 		return true
 	}
 	for _, a := range e.Args {
